@@ -322,18 +322,18 @@ def case_layout(mon, rng, idx):
             mon.nontrivial((name, desc, sorted(kw.items())))
         if name == "bipartite_spring_layout":
             if not (isinstance(res, tuple) and len(res) == 2):
-                mon.fail(f"{name}|{cls}|not-a-pair", f"{name}(H, {kw}) returned {type(res).__name__}, not (node_pos, edge_pos)", desc)
+                mon.fail(f"{name}|{ncls(H)}|not-a-pair", f"{name}(H, {kw}) returned {type(res).__name__}, not (node_pos, edge_pos)", desc)
                 continue
             bad = bad_positions(res[0], nodes)
             if bad:
-                mon.fail(f"{name}|{cls},{ncls(H)}|node-{bad[0]}", f"{name}(H, {kw}) node positions: {bad[1]}", desc)
+                mon.fail(f"{name}|{ncls(H)}|node-{bad[0]}", f"{name}(H, {kw}) node positions: {bad[1]}", desc)
             bad = bad_positions(res[1], list(H.edges))
             if bad:
-                mon.fail(f"{name}|{cls},{ncls(H)}|edge-{bad[0]}", f"{name}(H, {kw}) edge positions: {bad[1]}", desc)
+                mon.fail(f"{name}|{ncls(H)}|edge-{bad[0]}", f"{name}(H, {kw}) edge positions: {bad[1]}", desc)
             continue
         bad = bad_positions(res, nodes)
         if bad:
-            mon.fail(f"{name}|{cls},{ncls(H)}|{bad[0]}", f"{name}(H, {kw}): {bad[1]}", desc)
+            mon.fail(f"{name}|{ncls(H)}|{bad[0]}", f"{name}(H, {kw}): {bad[1]}", desc)
         elif rng.random() < 0.3:
             last = res
     # barycentres: on a layout's own output or on random positions
@@ -355,7 +355,6 @@ def case_layout(mon, rng, idx):
 
 
 def check_barycenters(mon, net, node_pos, src, desc):
-    cls = type(net).__name__
     if isinstance(net, xgi.DiHypergraph):
         mem = {e: set(t) | set(h) for e, (t, h) in net.edges.dimembers(dtype=dict).items()}
     else:
@@ -365,7 +364,7 @@ def check_barycenters(mon, net, node_pos, src, desc):
     mon.ev()
     if mem:
         mon.nontrivial(("barycenters", desc, src, repr(sorted((repr(k), tuple(np.asarray(v, dtype=float))) for k, v in node_pos.items()))))
-    key = f"edge_positions_from_barycenters|{cls}|"
+    key = f"edge_positions_from_barycenters|{'directed' if isinstance(net, xgi.DiHypergraph) else 'undirected'}|"
     if not isinstance(res, dict):
         mon.fail(key + "not-a-dict", f"returned {type(res).__name__}", desc)
         return
@@ -537,16 +536,40 @@ def pick_mo(rng, net):
 
 
 class Geo:
-    """Reads the returned collections back into node IDs."""
+    """Reads the returned collections back into node IDs and reports.
 
-    def __init__(self, mon, net, pos, desc):
+    Keys: "<function>|<trigger>|<clause>".  The trigger of a polygon clause says whether max_order truncates;
+    markers and lines do not depend on it.  A clause that a component function (draw_nodes, draw_hyperedges,
+    draw_simplices) already failed for the same network, style shape and max_order is not reported again
+    under `draw`, which only delegates to them.
+    """
+
+    def __init__(self, mon, net, pos, desc, fn, trunc, failed):
         self.mon, self.net, self.pos, self.desc = mon, net, pos, desc
+        self.fn, self.trunc, self.failed = fn, trunc, failed
         self.nodes = list(net.nodes)
         self.lut = {} if pos is None else {_k(p): v for v, p in pos.items()}
-        self.cls = type(net).__name__
 
     def wit(self, call):
         return f"{call}\n{self.desc}\npos={self.pos!r}"
+
+    def fire(self, trig, clause, what, call):
+        if self.fn == "draw" and clause in self.failed:
+            self.mon.note(f"subsumed-under-component:{clause}")
+            return False
+        self.failed.add(clause)
+        self.mon.fail(f"{self.fn}|{trig}|{clause}", what, self.wit(call))
+        return False
+
+    def unpack(self, res, shape, call):
+        """Checks the documented return structure; returns the collections or None."""
+        ok = isinstance(res, tuple) and len(res) == 2
+        if ok and shape == 1:
+            return (res[1],)
+        if ok and isinstance(res[1], tuple) and len(res[1]) == shape:
+            return res[1]
+        self.fire("any", "return-structure-wrong", f"{self.fn} returned {res!r}", call)
+        return None
 
     def ids(self, pts):
         out = []
@@ -557,64 +580,52 @@ class Geo:
             out.append(self.lut[k])
         return out, None
 
-    def nodes_ok(self, fn, trig, coll, call):
+    def nodes_ok(self, coll, call):
         self.mon.note("geometry:node-offsets")
-        key = f"{fn}|{trig}|"
         try:
             off = np.asarray(coll.get_offsets(), dtype=float)
         except Exception as exc:
-            self.mon.fail(key + "no-node-collection", f"returned node collection {coll!r} has no offsets ({exc!r})", self.wit(call))
-            return False
+            return self.fire("any", "no-node-collection", f"returned node collection {coll!r} has no offsets ({exc!r})", call)
         n = len(self.nodes)
         if off.shape != (n, 2):
-            self.mon.fail(key + "marker-count-wrong", f"{off.shape[0] if off.ndim else 0} markers for {n} nodes", self.wit(call))
-            return False
+            return self.fire("any", "marker-count-wrong", f"{off.shape[0] if off.ndim else 0} markers for {n} nodes", call)
         if self.pos is None:
             return True
         want = np.asarray([np.asarray(self.pos[v], dtype=float) for v in self.nodes])
         if not np.allclose(off, want, rtol=0, atol=1e-7):
             got, _ = self.ids(off)
-            self.mon.fail(key + "markers-not-at-positions-in-node-order",
-                          f"markers correspond to nodes {got if got is not None else off.tolist()} but H.nodes is {self.nodes}", self.wit(call))
-            return False
+            return self.fire("any", "markers-not-at-positions-in-node-order",
+                             f"markers correspond to nodes {got if got is not None else off.tolist()} but H.nodes is {self.nodes}", call)
         return True
 
-    def lines_ok(self, fn, trig, coll, lines, call):
+    def lines_ok(self, coll, lines, call):
         self.mon.note("geometry:lines")
-        key = f"{fn}|{trig}|"
         try:
             segs = [np.asarray(s, dtype=float) for s in coll.get_segments()]
         except Exception as exc:
-            self.mon.fail(key + "no-line-collection", f"returned dyad collection {coll!r} has no segments ({exc!r})", self.wit(call))
-            return False
+            return self.fire("any", "no-line-collection", f"returned dyad collection {coll!r} has no segments ({exc!r})", call)
         if self.pos is None:
             if len(segs) != sum(lines.values()):
-                self.mon.fail(key + "line-multiset-wrong", f"{len(segs)} lines for {sum(lines.values())} two-node edges", self.wit(call))
-                return False
+                return self.fire("any", "line-multiset-wrong", f"{len(segs)} lines for {sum(lines.values())} two-node edges", call)
             return True
         got = Counter()
         for s in segs:
             if s.shape != (2, 2):
-                self.mon.fail(key + "line-multiset-wrong", f"a line with {s.shape[0]} points: {s.tolist()}", self.wit(call))
-                return False
+                return self.fire("any", "line-multiset-wrong", f"a line with {s.shape[0]} points: {s.tolist()}", call)
             ends, miss = self.ids(s)
             if ends is None:
-                self.mon.fail(key + "line-endpoint-not-a-node-position", f"endpoint {miss} is no node's position", self.wit(call))
-                return False
+                return self.fire("any", "line-endpoint-not-a-node-position", f"endpoint {miss} is no node's position", call)
             got[frozenset(ends)] += 1
         if got != lines:
-            self.mon.fail(key + "line-multiset-wrong", f"lines join {_fmt(got)} but the two-node edges are {_fmt(lines)}", self.wit(call))
-            return False
+            return self.fire("any", "line-multiset-wrong", f"lines join {_fmt(got)} but the two-node edges are {_fmt(lines)}", call)
         return True
 
-    def polys_ok(self, fn, trig, coll, polys, call):
+    def polys_ok(self, coll, polys, call):
         self.mon.note("geometry:polygons")
-        key = f"{fn}|{trig}|"
         try:
             paths = list(coll.get_paths())
         except Exception as exc:
-            self.mon.fail(key + "no-patch-collection", f"returned edge collection {coll!r} has no paths ({exc!r})", self.wit(call))
-            return False
+            return self.fire(self.trunc, "no-patch-collection", f"returned edge collection {coll!r} has no paths ({exc!r})", call)
         got = Counter()
         sizes = Counter()
         for p in paths:
@@ -626,36 +637,22 @@ class Geo:
                 continue
             vs, miss = self.ids(v)
             if vs is None:
-                self.mon.fail(key + "polygon-vertex-not-a-node-position", f"vertex {miss} is no node's position", self.wit(call))
-                return False
+                return self.fire(self.trunc, "polygon-vertex-not-a-node-position", f"vertex {miss} is no node's position", call)
             got[frozenset(vs)] += 1
         if self.pos is None:
             want_sizes = Counter()
             for m, c in polys.items():
                 want_sizes[len(m)] += c
             if sizes != want_sizes:
-                self.mon.fail(key + "polygon-set-wrong", f"polygons with vertex counts {dict(sizes)} but expected {dict(want_sizes)}", self.wit(call))
-                return False
+                return self.fire(self.trunc, "polygon-set-wrong", f"polygons with vertex counts {dict(sizes)} but expected {dict(want_sizes)}", call)
             return True
         if got != polys:
-            self.mon.fail(key + "polygon-set-wrong", f"polygon vertex sets {_fmt(got)} but expected {_fmt(polys)}", self.wit(call))
-            return False
+            return self.fire(self.trunc, "polygon-set-wrong", f"polygon vertex sets {_fmt(got)} but expected {_fmt(polys)}", call)
         return True
 
 
 def _fmt(counter):
     return sorted(((sorted(m, key=repr), c) for m, c in counter.items()), key=repr)
-
-
-def _unpack(mon, fn, trig, res, shape, call, wit):
-    """Checks the documented return structure; returns the collections or None."""
-    ok = isinstance(res, tuple) and len(res) == 2
-    if ok and shape == 1:
-        return (res[1],)
-    if ok and isinstance(res[1], tuple) and len(res[1]) == shape:
-        return res[1]
-    mon.fail(f"{fn}|{trig}|return-structure-wrong", f"{fn} returned {res!r}", wit)
-    return None
 
 
 def case_draw(mon, rng, idx):
@@ -680,18 +677,19 @@ def case_draw(mon, rng, idx):
     fig, ax = plt.subplots()
     try:
         for shape in STYLES:
-            for fn in ("draw", "draw_nodes", edge_fn):
+            mo = pick_mo(rng, net)  # one max_order per style shape: the components and draw see the same one
+            trunc = "max_order<max" if mo_class(net, mo) == "<max" else "max_order=None-or->=max"
+            lines, polys = expected(net, mo)
+            failed = set()  # clauses a component already failed in this iteration: the same clause under draw is the same defect
+            use_pos = None if rng.random() < 0.08 else pos  # None: the default layout; only counts are observable then
+            for fn in ("draw_nodes", edge_fn, "draw"):
                 ax.clear()
-                use_pos = pos
-                if rng.random() < 0.07:
-                    use_pos = None
+                if use_pos is None:
                     mon.note("draw:pos=None")
-                geo = Geo(mon, net, use_pos, desc)
+                geo = Geo(mon, net, use_pos, desc, fn, trunc, failed)
                 kw = {}
-                mo = None
                 reject_ok = False
                 if fn != "draw_nodes":
-                    mo = pick_mo(rng, net)
                     mon.note(f"max_order:{mo_class(net, mo)}")
                     if mo is not None or rng.random() < 0.3:
                         kw["max_order"] = mo
@@ -703,7 +701,6 @@ def case_draw(mon, rng, idx):
                     kw["rescale_sizes"] = False
                 if rng.random() < 0.8:
                     kw["ax"] = ax  # else: the current axes (the same ones)
-                trig = cls if fn == "draw_nodes" else f"{cls},max_order{mo_class(net, mo) if mo is not None else '=None'}"
                 call = f"xgi.{fn}(net, pos, {', '.join(f'{k}={_short(v)}' for k, v in kw.items() if k != 'ax')})  # style shape: {shape}"
                 mon.note(f"fn:{fn}")
                 mon.note(f"style:{shape}")
@@ -716,22 +713,21 @@ def case_draw(mon, rng, idx):
                         mon.note("rejected:sc-edge-stat-length")
                         continue
                     raise
-                lines, polys = expected(net, mo)
                 if fn == "draw_nodes":
-                    colls = _unpack(mon, fn, trig, res, 1, call, geo.wit(call))
+                    colls = geo.unpack(res, 1, call)
                     if colls:
-                        geo.nodes_ok(fn, trig, colls[0], call)
+                        geo.nodes_ok(colls[0], call)
                 elif fn == "draw":
-                    colls = _unpack(mon, fn, trig, res, 3, call, geo.wit(call))
+                    colls = geo.unpack(res, 3, call)
                     if colls:
-                        geo.nodes_ok(fn, trig, colls[0], call)
-                        geo.lines_ok(fn, trig, colls[1], lines, call)
-                        geo.polys_ok(fn, trig, colls[2], polys, call)
+                        geo.nodes_ok(colls[0], call)
+                        geo.lines_ok(colls[1], lines, call)
+                        geo.polys_ok(colls[2], polys, call)
                 else:
-                    colls = _unpack(mon, fn, trig, res, 2, call, geo.wit(call))
+                    colls = geo.unpack(res, 2, call)
                     if colls:
-                        geo.lines_ok(fn, trig, colls[0], lines, call)
-                        geo.polys_ok(fn, trig, colls[1], polys, call)
+                        geo.lines_ok(colls[0], lines, call)
+                        geo.polys_ok(colls[1], polys, call)
     finally:
         plt.close("all")
     mon.sample(f"draw: {desc} pos={ {k: tuple(np.asarray(v, dtype=float)) for k, v in pos.items()} }")
